@@ -2,7 +2,7 @@
 """tools/farm.py — run many checks in parallel without sharing a Lean build directory.
 
 Each of N slots is a pair of scratch git worktrees (/tmp/vw/t<i> of this framework at its current HEAD with a copy of
-lean/.lake, /tmp/rw/t<i> of the repository under verification at its HEAD).  Jobs are lines `PROP [tier] [seed] [patch]`
+lean/.lake, /tmp/rw/t<i> of the repository under verification at its HEAD).  Jobs are lines `PROP [tier] [seed] [patch [base-commit]]`
 on stdin (patch: a diff applied to the slot's repository tree for that job only, e.g. seeded/C02-3/patch.diff or
 refactors/C05-2/patch.diff).  One result line per job on stdout; full logs under /tmp/scratch-main/farm/.
 Usage: tools/farm.py [--slots 4] [--setup] < jobs
@@ -38,8 +38,12 @@ def setup(n):
 def job(slot, spec):
     parts = spec.split()
     prop, tier, seed, patch = parts[0], (parts[1:2] or ['quick'])[0], (parts[2:3] or ['0'])[0], (parts[3:4] or [None])[0]
+    base = (parts[4:5] or [None])[0]          # optional: the repository commit the patch was cut against
     v, r = '/tmp/vw/t%d' % slot, '/tmp/rw/t%d' % slot
     sh('git', '-C', r, 'checkout', '-q', '--', '.'); sh('git', '-C', r, 'clean', '-fdq')
+    head = sh('git', '-C', r, 'rev-parse', 'HEAD').stdout.strip()
+    if base:
+        sh('git', '-C', r, 'checkout', '-q', '--detach', base)
     note = ''
     if patch:
         a = sh('git', '-C', r, 'apply', os.path.abspath(patch))
@@ -71,6 +75,8 @@ def job(slot, spec):
                 reps.append('   replay: %s %s %s' % (d.get('what') or d.get('kind'), json.dumps(d.get('input'))[:260],
                                                       [b['name'] for b in d.get('no_longer_checks', d.get('broken', []))][:3]))
     sh('git', '-C', r, 'checkout', '-q', '--', '.'); sh('git', '-C', r, 'clean', '-fdq')
+    if base:
+        sh('git', '-C', r, 'checkout', '-q', '--detach', head)
     return '\n'.join(['%s: exit %d (%ds)%s' % (spec, code, time.time() - t0, note)] + [l for l in lines if not l.startswith('KNOWN')][:4] + reps[:3])
 
 
